@@ -306,8 +306,11 @@ Definition handler_step (O : oracle) (c : hcfg) (r : request) : option mop * res
 (* ---- several handles on one table ---- *)
 Record handles := { stores : list bool; sources : list srccfg; handlers : list hcfg }.
 Inductive step :=
-| SStore (i : nat) (o : sop) | SSource (i : nat) (q : qop) | SHandler (i : nat) (r : request).
+| SStore (i : nat) (o : sop) | SSource (i : nat) (q : qop) | SHandler (i : nat) (r : request)
+| SLock (b : bool)        (* another connection takes (BEGIN IMMEDIATE) / gives up (ROLLBACK) the write lock *)
+| SExt (o : mop).         (* a statement issued by a foreign program directly on the database file *)
 Definition E_NO_HANDLE : err := 96.
+Definition EOperational : err := 20.     (* sqlite3.OperationalError: database is locked *)
 Definition do_step (O : oracle) (H : handles) (st : step) (m : tbl) : option mop * result :=
   match st with
   | SStore i o => match nth_error (stores H) i with
@@ -322,21 +325,43 @@ Definition do_step (O : oracle) (H : handles) (st : step) (m : tbl) : option mop
                     | Some c => handler_step O c r
                     | None => (None, RRaise E_NO_HANDLE)
                     end
+  | SLock _ => (None, RUnit)
+  | SExt o => (Some o, RUnit)
+  end.
+(* Fault dimension "database locked": while another connection holds the write lock, a step that would issue
+   a mutating statement fails with OperationalError after the busy timeout and writes nothing; everything
+   that is decided before the statement (strict check, method, access, body decoding) and all reads are as
+   usual. *)
+Definition do_step_l (O : oracle) (H : handles) (st : step) (lk : bool) (m : tbl) : option mop * result * bool :=
+  match st with
+  | SLock b => (None, RUnit, b)
+  | _ => match do_step O H st m with
+         | (Some o, res) => if lk then (None, RRaise EOperational, lk) else (Some o, res, lk)
+         | (None, res) => (None, res, lk)
+         end
   end.
 Definition apply_omop (m : tbl) (o : option mop) : tbl := match o with Some x => apply_mop m x | None => m end.
 (* observation: per step the result and the table as another process reads it right after the step *)
-Fixpoint run (O : oracle) (H : handles) (steps : list step) (m : tbl) : list (result * tbl) :=
+Fixpoint run (O : oracle) (H : handles) (steps : list step) (lk : bool) (m : tbl) : list (result * tbl) :=
   match steps with
   | [] => []
   | st :: r =>
-      let (o, res) := do_step O H st m in
-      let m' := apply_omop m o in
-      (res, dump m') :: run O H r m'
+      match do_step_l O H st lk m with
+      | (o, res, lk') =>
+          let m' := apply_omop m o in
+          (res, dump m') :: run O H r lk' m'
+      end
   end.
-Fixpoint final (O : oracle) (H : handles) (steps : list step) (m : tbl) : tbl :=
+Fixpoint final (O : oracle) (H : handles) (steps : list step) (lk : bool) (m : tbl) : tbl :=
   match steps with
   | [] => m
-  | st :: r => final O H r (apply_omop m (fst (do_step O H st m)))
+  | st :: r => final O H r (snd (do_step_l O H st lk m)) (apply_omop m (fst (fst (do_step_l O H st lk m))))
+  end.
+Fixpoint lock_after (steps : list step) (lk : bool) : bool :=
+  match steps with
+  | [] => lk
+  | SLock b :: r => lock_after r b
+  | _ :: r => lock_after r lk
   end.
 
 (* ---- a writer process that is killed ----
